@@ -1,20 +1,41 @@
-"""Tiny pure-Python stand-in for the numpy operations used by tskit/vcf.py."""
-int8 = 'int8'; int32 = 'int32'
+"""Tiny pure-Python stand-in for the numpy operations used by tskit/vcf.py (CrossHair realises symbolic
+values at the numpy C boundary, so the module under analysis is given this instead; checked against numpy
+on concrete cases at the start of every run by c16_props.selfcheck)."""
+import builtins
+
+int8 = 'int8'
+int32 = 'int32'
+
+
 class A:
     def __init__(self, data, dtype=None):
-        self.d = list(data); self.dtype = dtype
+        self.d = list(data)
+        self.dtype = dtype
+
     @property
-    def shape(self): return (len(self.d),)
-    def __len__(self): return len(self.d)
-    def __iter__(self): return iter(self.d)
+    def shape(self):
+        return (len(self.d),)
+
+    def __len__(self):
+        return len(self.d)
+
+    def __iter__(self):
+        return iter(self.d)
+
     def __getitem__(self, k):
         if isinstance(k, A):
             if k.dtype is bool:
-                if len(k.d) != len(self.d): raise IndexError('boolean index did not match')
+                if len(k.d) != len(self.d):
+                    raise IndexError('boolean index did not match indexed array')
                 return A([x for x, m in zip(self.d, k.d) if m], self.dtype)
             return A([self.d[i] for i in k.d], self.dtype)
-        if isinstance(k, slice): return A(self.d[k], self.dtype)
+        if isinstance(k, (list, tuple)):
+            # numpy: a list index is converted to an array first (bool list -> mask, int list -> fancy index)
+            return self[array(k)]
+        if isinstance(k, slice):
+            return A(self.d[k], self.dtype)
         return self.d[k]
+
     def __setitem__(self, k, v):
         if isinstance(k, A):
             if k.dtype is bool:
@@ -22,25 +43,64 @@ class A:
             else:
                 idx = list(k.d)
             vals = v.d if isinstance(v, A) else [v] * len(idx)
-            for i, x in zip(idx, vals): self.d[i] = x
+            for i, x in zip(idx, vals):
+                self.d[i] = x
         else:
             self.d[k] = v
+
     def __invert__(self):
-        if self.dtype is bool: return A([not x for x in self.d], bool)
+        if self.dtype is bool:
+            return A([not x for x in self.d], bool)
         return A([-x - 1 for x in self.d], self.dtype)
+
     def __eq__(self, o):
         return A([x == o for x in self.d], bool)
-    def __add__(self, o): return A([x + o for x in self.d], self.dtype)
-    def copy(self): return A(self.d, self.dtype)
-    def tobytes(self): return bytes(self.d)
+
+    def __add__(self, o):
+        return A([x + o for x in self.d], self.dtype)
+
+    def copy(self):
+        return A(self.d, self.dtype)
+
+    def tobytes(self):
+        return bytes(x & 0xff for x in self.d)
+
+
 def array(x, dtype=None):
-    if isinstance(x, A): x = x.d
+    if isinstance(x, A):
+        src_dtype = x.dtype
+        x = x.d
+    else:
+        src_dtype = None
     x = list(x)
-    if dtype is bool: return A([bool(v) for v in x], bool)
-    if dtype is int: return A([int(v) for v in x], int)
+    if dtype is bool:
+        return A([bool(v) for v in x], bool)
+    if dtype is int:
+        return A([int(v) for v in x], int)
+    if dtype is None:
+        if src_dtype is not None:
+            return A(x, src_dtype)
+        if len(x) > 0 and builtins.all(isinstance(v, bool) for v in x):
+            return A(x, bool)
+        return A(x, int)
     return A(x, dtype)
-def zeros(n, dtype=None): return A([False if dtype is bool else 0] * n, dtype)
-def full(n, v, dtype=None): return A([v] * n, dtype)
-def any(a): return __builtins__['any'](a.d) if isinstance(__builtins__, dict) else __import__('builtins').any(a.d)
-def round(x): return A([int(__import__('builtins').round(v)) for v in x], int)
-def unique(a): return A(sorted(set(a.d)), a.dtype)
+
+
+def zeros(n, dtype=None):
+    return A([False if dtype is bool else 0] * n, dtype)
+
+
+def full(n, v, dtype=None):
+    return A([v] * n, dtype)
+
+
+def any(a):
+    return builtins.any(a.d)
+
+
+def round(x):
+    return A([int(builtins.round(v)) for v in x], int)
+
+
+def unique(a):
+    return A(sorted(set(a.d)), a.dtype)
